@@ -3,6 +3,7 @@ package suites
 import (
 	"fmt"
 	"math/rand"
+	"os"
 	"runtime"
 	"sort"
 	"strconv"
@@ -27,7 +28,9 @@ import (
 //	recover, nH, nH x [cmd, flags], nInit, nInit x [h], nE, nE x [cmd, echo], nC, nC x [clear
 //	command], nT, nT x [count, count x [op]], nCert, nCert x [action], observed actions
 //
-// flags: b background, t AddTmp, d AddTmp with a deadline, i internal.
+// flags: b background, t AddTmp, d AddTmp with a deadline, i internal, g gated (see hangup).
+// recover: "1" RecoverFunc installed; "h" appended: the server hangs up while event 0 is still
+// being handled (everything it sent before must still be delivered); "t": the run stalled.
 // op:     a<h> Add.. creating handler h | m<h> Remove(cuid of h) | k<j> Clear(clear command j) | K ClearAll
 // action: v.n arrive | d.n deliver | s.n.k snapshot of phase k | g.n.h bg wrapper signals |
 //         S.n.h start | E.n.h.o end (o: 0/1 returned false/true, p panicked) | b.n.k barrier |
@@ -39,6 +42,7 @@ import (
 type trHandler struct {
 	cmd                     string
 	bg, tmp, deadline, intl bool
+	gated                   bool // hang-up scenarios: on event 0 the function returns only after the server has hung up
 }
 
 func (h trHandler) flags() string {
@@ -54,6 +58,9 @@ func (h trHandler) flags() string {
 	}
 	if h.intl {
 		s += "i"
+	}
+	if h.gated {
+		s += "g"
 	}
 	return s
 }
@@ -76,7 +83,8 @@ func (o trOp) String() string {
 }
 
 type trScenario struct {
-	timedOut bool // the run did not become quiet in time: the trace may lack late actions
+	timedOut bool // the run stalled (twice): the trace may lack late actions
+	hangup   bool // the server sends all events and hangs up while event 0 is still being handled
 	recover  bool
 	handlers []trHandler
 	init     []int
@@ -173,6 +181,9 @@ func trEncode(sc *trScenario, cert, obs []trAct) Case {
 	if sc.timedOut {
 		c[0] += "t"
 	}
+	if sc.hangup {
+		c[0] += "h"
+	}
 	c = append(c, strconv.Itoa(len(sc.handlers)))
 	for _, h := range sc.handlers {
 		c = append(c, h.cmd, h.flags())
@@ -232,6 +243,7 @@ func trDecode(c Case) (sc *trScenario, cert, obs []trAct, ok bool) {
 	}
 	sc.recover = strings.Contains(rc, "1")
 	sc.timedOut = strings.Contains(rc, "t")
+	sc.hangup = strings.Contains(rc, "h")
 	for j := 0; j < nh; j++ {
 		cmd, a := next()
 		fl, b := next()
@@ -239,7 +251,7 @@ func trDecode(c Case) (sc *trScenario, cert, obs []trAct, ok bool) {
 			return nil, nil, nil, false
 		}
 		sc.handlers = append(sc.handlers, trHandler{cmd: cmd, bg: strings.Contains(fl, "b"), tmp: strings.Contains(fl, "t"),
-			deadline: strings.Contains(fl, "d"), intl: strings.Contains(fl, "i")})
+			deadline: strings.Contains(fl, "d"), intl: strings.Contains(fl, "i"), gated: strings.Contains(fl, "g")})
 	}
 	ni, ok3 := count()
 	if !ok3 {
@@ -359,6 +371,12 @@ func (l *trLog) result() []trAct {
 	return append([]trAct(nil), l.acts...)
 }
 
+func (l *trLog) count() int {
+	l.mu.Lock()
+	defer l.mu.Unlock()
+	return len(l.acts)
+}
+
 func (l *trLog) closedSeen(h int) bool {
 	l.mu.Lock()
 	defer l.mu.Unlock()
@@ -380,17 +398,28 @@ func trMix(seed int64, a, b, c int) uint64 {
 
 const trEndToken = "c06end"
 
-// trRun executes the scenario and returns the observed trace; timedOut reports that the
-// client did not become quiet in time (the trace may then lack late actions).
-func trRun(sc *trScenario, seed int64, procs int) (obs []trAct, timedOut bool) {
+// trRun executes the scenario and returns the observed trace; stalled reports that a wait was
+// abandoned by the watchdog (nothing at all progressed for c06StallLimit; the trace may then
+// lack late actions).  No wait in here ends because time has passed.
+func trRun(sc *trScenario, seed int64, procs int) (obs []trAct, stalled bool) {
+	c06DumpUsable() // its self-test must run while no handler of a scenario is around
 	prev := runtime.GOMAXPROCS(procs)
 	defer runtime.GOMAXPROCS(prev)
 
 	cfg := drive.BaseConfig()
 	cfg.PingDelay = -1
 	s := drive.Start(cfg)
-	defer s.Stop()
-	s.Settle(2*time.Millisecond, 200*time.Millisecond)
+	stopped := false
+	defer func() {
+		if !stopped {
+			s.Stop()
+		}
+	}()
+	timedOut := false
+	gate := make(chan struct{}) // closed when gated handlers may return
+	if !sc.hangup {
+		close(gate)
+	}
 
 	log := &trLog{acts: make([]trAct, 0, 4096)}
 	stop := make(chan struct{})
@@ -416,6 +445,9 @@ func trRun(sc *trScenario, seed int64, procs int) (obs []trAct, timedOut bool) {
 				return false // the registration burst, the end marker
 			}
 			log.stamp(trAct{kind: 'S', n: n, h: h})
+			if sc.handlers[h].gated && n == 0 {
+				<-gate
+			}
 			x := trMix(seed, 1, h, n)
 			if x%2 == 0 {
 				time.Sleep(time.Duration(x>>8%3000) * time.Microsecond)
@@ -469,10 +501,10 @@ func trRun(sc *trScenario, seed int64, procs int) (obs []trAct, timedOut bool) {
 		cuidMu.Unlock()
 	}
 
-	base := runtime.NumGoroutine()
 	for _, h := range sc.init {
 		register(h)
 	}
+	progress := func() string { return itoa(log.count()) + "/" + itoa(s.Mark()) }
 
 	// registrars: Add/Remove may overlap each other, Clear/ClearAll run alone (their order
 	// against a concurrent Add of the same command could not be told from the trace)
@@ -533,51 +565,76 @@ func trRun(sc *trScenario, seed int64, procs int) (obs []trAct, timedOut bool) {
 			line = ":" + src + " " + e.cmd + " #chan :" + strconv.Itoa(n)
 		}
 		log.stamp(trAct{kind: 'v', n: n})
+		s.Peer.SetWriteDeadline(time.Now().Add(2 * c06StallLimit)) // the client reads nothing for two minutes
 		if s.Send(line) != nil {
 			timedOut = true
+			trStall(1)
 			break
 		}
 	}
-	regs.Wait()
-	// every foreground handler has returned once the answer to a final PING is on the wire
-	if s.Send("PING :"+trEndToken) != nil {
+	regsDone := make(chan struct{})
+	go func() { regs.Wait(); close(regsDone) }()
+	if !c06Await(func() bool {
+		select {
+		case <-regsDone:
+			return true
+		default:
+			return false
+		}
+	}, progress, c06StallLimit) {
 		timedOut = true
+		trStall(2)
 	}
-	if _, ok := s.WaitLine(func(l string) bool { return strings.HasPrefix(l, "PONG") && strings.Contains(l, trEndToken) }, 20*time.Second); !ok {
-		timedOut = true
-	}
-	// background handlers, AddTmp wrappers and deadline goroutines: wait until only the
-	// watchers of channels that are still open are left
-	deadline := time.Now().Add(20 * time.Second)
-	quiet := 0
-	for {
-		open := 0
-		for _, a := range log.result() {
-			if a.kind == 'x' {
-				open--
+	if sc.hangup {
+		// The server hangs up.  readLoop queues every line it was sent before it sees the end
+		// of the stream; only then is the function of the gated handler allowed to return, so
+		// that the events are still queued when the connection's loops are told to stop.
+		s.Peer.Close()
+		if c06DumpUsable() {
+			until := time.Now().Add(5 * time.Second) // bounds how sharp the scenario is, decides nothing
+			for strings.Contains(c06Dump(), "girc.(*Client).readLoop") && time.Now().Before(until) {
+				time.Sleep(100 * time.Microsecond)
 			}
 		}
-		for h, d := range sc.handlers {
-			cuidMu.Lock()
-			reg := cuids[h] != ""
-			cuidMu.Unlock()
-			if d.tmp && reg {
-				open++
+		close(gate)
+		// Connect returns when execLoop has flushed the queue and every loop has ended
+		returned := false
+		if !c06Await(func() bool {
+			select {
+			case <-s.Done:
+				returned = true
+			default:
 			}
-		}
-		if runtime.NumGoroutine() <= base+open {
-			quiet++
-			if quiet >= 3 {
-				break
-			}
-		} else {
-			quiet = 0
-		}
-		if time.Now().After(deadline) {
+			return returned
+		}, progress, c06StallLimit) {
 			timedOut = true
-			break
+			trStall(3)
 		}
-		time.Sleep(200 * time.Microsecond)
+		stopped = returned
+	} else {
+		// every foreground handler has returned once the answer to a final PING is on the wire
+		s.Peer.SetWriteDeadline(time.Now().Add(2 * c06StallLimit))
+		if s.Send("PING :"+trEndToken) != nil {
+			timedOut = true
+			trStall(4)
+		}
+		if !c06Await(func() bool {
+			for _, l := range s.Since(0) {
+				if strings.HasPrefix(l, "PONG") && strings.Contains(l, trEndToken) {
+					return true
+				}
+			}
+			return false
+		}, progress, c06StallLimit) {
+			timedOut = true
+			trStall(5)
+		}
+	}
+	// background handlers, AddTmp wrappers and deadline goroutines: wait until no goroutine is
+	// busy with handler dispatch any more
+	if !c06Idle(progress) {
+		timedOut = true
+		trStall(6)
 	}
 	// a done channel that is closed by now has been seen closed by its watcher before the
 	// trace is taken
@@ -590,8 +647,9 @@ func trRun(sc *trScenario, seed int64, procs int) (obs []trAct, timedOut bool) {
 		}
 		select {
 		case <-done:
-			for until := time.Now().Add(10 * time.Second); !log.closedSeen(h) && time.Now().Before(until); {
-				time.Sleep(50 * time.Microsecond)
+			if !c06Await(func() bool { return log.closedSeen(h) }, progress, c06StallLimit) {
+				timedOut = true
+				trStall(7)
 			}
 		default:
 		}
@@ -1172,21 +1230,72 @@ func genTraceScenario(r *rand.Rand) *trScenario {
 	return sc
 }
 
-var trTimeouts int // runs that did not become quiet; after two, no further scenario is run
+// trStall reports on stderr where a wait was given up (diagnosis only).
+func trStall(site int) {
+	fmt.Fprintf(os.Stderr, "c06: dispatch.trace: wait %d abandoned by the watchdog at %s\n", site, time.Now().Format("15:04:05"))
+}
+
+var trStalls int // scenarios that stalled twice in a row; after two of them no further scenario is run
+
+// genHangupScenario: handler 0 is a foreground wildcard handler whose function, on event 0,
+// returns only after the server has sent every event and hung up; the other handlers are
+// registered before the run and nobody removes a plain one, so every event must reach them.
+func genHangupScenario(r *rand.Rand) *trScenario {
+	sc := &trScenario{recover: true, hangup: true}
+	sc.handlers = append(sc.handlers, trHandler{cmd: "*", gated: true})
+	nh := 2 + r.Intn(5)
+	for h := 1; h < nh; h++ {
+		up := Pick(r, trCmds...)
+		d := trHandler{cmd: Pick(r, trCmdForms[up]...)}
+		switch r.Intn(8) {
+		case 0, 1:
+			d.bg = true
+		case 2:
+			d.bg, d.tmp = true, true
+		}
+		sc.handlers = append(sc.handlers, d)
+	}
+	for h := range sc.handlers {
+		sc.init = append(sc.init, h)
+	}
+	ne := 6 + r.Intn(14) // at most 19 events wait in the receive queue (it holds 25)
+	for n := 0; n < ne; n++ {
+		cmd := Pick(r, "FOO", "FOO", "BAR", "PRIVMSG", "NOTICE", "BAZ")
+		echo := (cmd == "PRIVMSG" || cmd == "NOTICE") && r.Intn(3) == 0
+		sc.events = append(sc.events, trEvent{cmd, echo})
+	}
+	sc.clears = []string{"foo"}
+	sc.threads = [][]trOp{{}}
+	return sc
+}
 
 func genTraceCase(r *rand.Rand) Case {
-	sc := genTraceScenario(r)
+	var sc *trScenario
+	if r.Intn(5) == 0 {
+		sc = genHangupScenario(r)
+	} else {
+		sc = genTraceScenario(r)
+	}
 	seed := r.Int63()
 	procs := []int{1, 2, 4, 16}[r.Intn(4)]
-	if trTimeouts >= 2 {
-		// the dispatcher hangs: do not spend 20s on every further case
+	if trStalls >= 2 {
+		// the dispatcher hangs: do not spend minutes on every further case
 		sc = &trScenario{recover: true, timedOut: true}
 		return trEncode(sc, nil, nil)
 	}
-	obs, timedOut := trRun(sc, seed, procs)
-	if timedOut {
-		trTimeouts++
+	t0 := time.Now()
+	obs, stalled := trRun(sc, seed, procs)
+	if d := time.Since(t0); d > 5*time.Second {
+		fmt.Fprintf(os.Stderr, "c06: dispatch.trace: a scenario took %s (hangup=%v, %d handlers, %d events, GOMAXPROCS %d)\n", d, sc.hangup, len(sc.handlers), len(sc.events), procs)
+	}
+	if stalled {
+		// a suspected stall is re-run once, on a fresh client, before it is reported
+		obs, stalled = trRun(sc, seed, procs)
+	}
+	if stalled {
+		trStalls++
 		sc.timedOut = true
+		trStall(8)
 	}
 	return trEncode(sc, c06Guess(sc, obs), obs)
 }
@@ -1237,7 +1346,7 @@ func init() {
 			}
 			res := Result{Obs: "accept", Oracle: trOracle(sc, obs), Sig: trSig(sc, obs)}
 			if sc.timedOut && res.Oracle == "" {
-				res.Oracle = "dispatcher-stalls: the client did not finish dispatching the events and become quiet within 20s"
+				res.Oracle = "dispatcher-stalls: twice in a row the client stopped making any progress for a minute before the events were dispatched and the handlers done"
 			}
 			return res
 		},
